@@ -368,3 +368,138 @@ def no_stale_queue_alias_across_connect(ctx):
                       'is in none of txq / pending / active_requests, so even a disconnect does not release it', f)
     if not n:
         raise AnchorMissing('no put on the request queues found in SecopClient')
+
+
+def _tp(test):
+    """(source of the core, negated?) of a truth / None test; `x is not None` reads as the negation of `x is None`"""
+    neg = False
+    t = test
+    while isinstance(t, ast.UnaryOp) and isinstance(t.op, ast.Not):
+        neg = not neg
+        t = t.operand
+    s = src(t)
+    if isinstance(t, ast.Compare) and len(t.ops) == 1 and isinstance(t.ops[0], ast.IsNot) and src(t.comparators[0]) == 'None':
+        s, neg = f'{src(t.left)} is None', not neg
+    return s, neg
+
+
+def _side(cfg, t, truth):
+    """nodes on the side of test node t where the CORE expression has the given truth value"""
+    core, neg = _tp(t.ast)
+    label = 'T' if (truth != neg) else 'F'
+    return cfg.reach([t.id], labels={label}, avoid=[t.id]), label
+
+
+@rule('C11.R9', min_instances=6)
+def caller_path_obligations(ctx):
+    """queue_request hands the entry to the transmit queue and returns it; get_reply: the wait is finite, on the timed-out side
+    the entry is registered for clean-up and TimeoutError is raised, an entry released without reply raises ConnectionError,
+    an error reply raises the rebuilt error, and the reply is returned on every other exit - with the polarity of each test"""
+    m = ctx.m
+    q = m.method(C, 'queue_request', inherited=False)
+    ctx.analysed(q)
+    cfgq = CFG(q.node, m, q.module)
+    puts = [i for c in calls_in(q.node) if call_attr(c) in ('put', 'put_nowait') for i in cfgq.node_of(c)]
+    ctx.check(bool(puts) and cfgq.all_paths_pass([cfgq.entry], [cfgq.exit], puts, exc=False), f'{q.qualname}:entry is queued on every path', q.node,
+              'txq.put(entry) lies on every normal path', 'a request can be "made" without being put on the transmit queue: its caller waits for the time-out', q)
+    ctx.check(not can_end_without_value(cfgq, q.node), f'{q.qualname}:returns the entry', q.node, 'return entry', 'queue_request can return None: the caller has nothing to wait on', q)
+    g = m.method(C, 'get_reply', inherited=False)
+    ctx.analysed(g)
+    cfg = CFG(g.node, m, g.module)
+    e = g.node.args.args[1].arg
+    n = 0
+    for t in cfg.nodes:
+        if t.kind != 'test':
+            continue
+        core, neg = _tp(t.ast)
+        if core.startswith(f'{e}[1].wait('):
+            n += 1
+            side, label = _side(cfg, t, False)            # wait() returned False: timed out
+            cl = {i for c in calls_in(g.node) if call_attr(c) == 'append' and 'cleanup' in src(c.func) for i in cfg.node_of(c)}
+            to = {i for x in body_walk(g.node) if isinstance(x, ast.Raise) and x.exc is not None and 'TimeoutError' in src(x.exc) for i in cfg.ids(x)}
+            ok = bool(cl) and cl <= side and bool(to) and to <= side and side_never_completes(cfg, t.id, label)
+            ctx.check(ok, f'{g.qualname}:timed-out wait registers for clean-up and raises TimeoutError', t.ast, 'on the side where wait() is false',
+                      f'`{src(t.ast)}`: on the side where the wait timed out the entry is not handed to the clean-up list / no TimeoutError is raised '
+                      '(or this happens when the reply DID arrive): a caller waits for ever, or gets a time-out for an answered request', g)
+        if core == f'{e}[2]':
+            n += 1
+            side, label = _side(cfg, t, False)            # no reply stored
+            ce = {i for x in body_walk(g.node) if isinstance(x, ast.Raise) and x.exc is not None and 'ConnectionError' in src(x.exc) for i in cfg.ids(x)}
+            ok = bool(ce) and ce <= side and side_never_completes(cfg, t.id, label)
+            ctx.check(ok, f'{g.qualname}:released without reply raises ConnectionError', t.ast, 'on the side where no reply was stored',
+                      f'`{src(t.ast)}`: an entry released by disconnect (no reply stored) does not raise ConnectionError on that side', g)
+        if core.endswith('.startswith(ERRORPREFIX)'):
+            n += 1
+            side, label = _side(cfg, t, True)
+            ctx.check(side_never_completes(cfg, t.id, label), f'{g.qualname}:error reply raises', t.ast, 'the error side raises the rebuilt error',
+                      f'`{src(t.ast)}`: an error reply is returned to the caller as if it were the answer (or a good reply raises)', g)
+    ctx.check(not can_end_without_value(cfg, g.node), f'{g.qualname}:returns the reply', g.node, 'every normal exit returns the stored reply',
+              'get_reply can return None', g)
+    waits = [c for c in calls_in(g.node) if call_attr(c) == 'wait']
+    for c in waits:
+        ctx.check(bool(c.args or c.keywords), f'{g.qualname}:finite wait', c, f'`{src(c)}`', f'`{src(c)}` waits without time-out', g)
+    if n < 3:
+        raise AnchorMissing('tests of get_reply (wait / stored reply / error prefix) not found')
+
+
+@rule('C11.R10', min_instances=4)
+def worker_thread_obligations(ctx):
+    """transmit thread: a request whose reply key is free becomes the active request of that key AND is sent; one whose key is
+    taken is parked - decided on the two sides of `key in self.active_requests`.  receive thread: a reply is matched by
+    popping its key; for a matched entry the reply is stored BEFORE the event is set; an unmatched message never reaches the
+    set(); after every matched reply the parked requests go back to the transmit queue"""
+    m = ctx.m
+    entries = _thread_entries(m)
+    tx = next((f for n_, f in entries.items() if 'tx' in n_), None)
+    rx = next((f for n_, f in entries.items() if 'rx' in n_), None)
+    if tx is None or rx is None:
+        raise AnchorMissing('transmit / receive thread not found')
+    ctx.analysed(tx)
+    cfg = CFG(tx.node, m, tx.module)
+    sends = {i for c in calls_in(tx.node) if call_attr(c) == 'send' and 'io' in src(c.func) for i in cfg.node_of(c)}
+    stores = {i for n_ in body_walk(tx.node) if isinstance(n_, ast.Assign) and any(isinstance(t, ast.Subscript) and src(t.value) == 'self.active_requests' for t in n_.targets)
+              for i in cfg.node_of(n_)}
+    parks = {i for c in calls_in(tx.node) if call_attr(c) == 'put' and 'pending' in src(c.func) for i in cfg.node_of(c)}
+    found = False
+    for t in cfg.nodes:
+        if t.kind != 'test':
+            continue
+        for l, op, r in compare_ops(t.ast):
+            if r == 'self.active_requests' and op in ('in', 'notin'):
+                found = True
+                taken = cfg.reach([t.id], labels={'T' if op == 'in' else 'F'}, avoid=[t.id])
+                free = cfg.reach([t.id], labels={'F' if op == 'in' else 'T'}, avoid=[t.id])
+                ok = bool(sends) and bool(stores) and bool(parks) and sends <= free and stores <= free and parks <= taken and \
+                    not ((sends | stores) & taken - free) and not (parks & free - taken)
+                ctx.check(ok, f'{tx.qualname}:free key is sent and registered, taken key is parked', t.ast, 'send + active_requests[key] on the free side, pending.put on the other',
+                          f'`{src(t.ast)}`: ' + ('nothing is sent' if not sends else 'the request is not registered under its key' if not stores else
+                                                 'a request with a taken key is not parked' if not parks else
+                                                 'the sides are swapped: a second request with the same key overwrites the active one (its caller never gets a reply) and a '
+                                                 'request with a free key is parked for ever'), tx)
+    if not found:
+        ctx.bad(f'{tx.qualname}:free key is sent and registered, taken key is parked', tx.node, 'no membership test on active_requests in the transmit thread', tx)
+    ctx.analysed(rx)
+    cfgr = CFG(rx.node, m, rx.module)
+    sets = {i for c in calls_in(rx.node) if call_attr(c) == 'set' and '[1]' in src(c.func) for i in cfgr.node_of(c)}
+    stor = {i for n_ in body_walk(rx.node) if isinstance(n_, ast.Assign) and any(isinstance(t, ast.Subscript) and src(t.slice) == '2' for t in n_.targets)
+            for i in cfgr.node_of(n_)}
+    ctx.check(bool(sets) and bool(stor) and all(cfgr.dominates(list(stor), i) for i in sets), f'{rx.qualname}:reply stored before the event is set', rx.node,
+              'entry[2] = ... dominates entry[1].set()',
+              'the waiting caller is woken without (or before) its reply being stored: it reads "connection closed before reply"', rx)
+    pops = {i for c in calls_in(rx.node) if call_attr(c) == 'pop' and src(c.func.value) == 'self.active_requests' for i in cfgr.node_of(c)}
+    ctx.check(bool(pops) and all(cfgr.dominates(list(pops), i) for i in sets), f'{rx.qualname}:the reply key is taken out of active_requests', rx.node,
+              'a pop of active_requests lies on every path to the set()', 'a reply is matched without removing its key: every later request with that key is parked for ever', rx)
+    for t in cfgr.nodes:
+        if t.kind == 'test' and _tp(t.ast)[0] == 'entry is None':
+            side, label = _side(cfgr, t, True)
+            ctx.check(not (sets & side - _side(cfgr, t, False)[0]) and bool(sets & _side(cfgr, t, False)[0]), f'{rx.qualname}:unmatched message wakes nobody', t.ast,
+                      'set() only on the matched side', f'`{src(t.ast)}`: the event of a missing entry is set (AttributeError ends the receive thread) and matched replies are dropped', rx)
+    requeue = [c for c in calls_in(rx.node) if call_attr(c) == 'put' and 'txq' in src(c.func) and c.args and 'pending' in src(c.args[0])]
+    ctx.check(bool(requeue), f'{rx.qualname}:parked requests are re-queued after a reply', rx.node, 'self.txq.put(self.pending.get())',
+              'parked requests are never handed back to the transmit queue: their callers time out', rx)
+    for c in requeue:
+        t = next((a for a in ancestors(c) if isinstance(a, (ast.While, ast.If))), None)
+        if t is not None:
+            core, neg = _tp(t.test)
+            ctx.check(core == 'self.pending.empty()' and neg, f'{rx.qualname}:re-queue runs while something is parked', t.test, 'while not self.pending.empty()',
+                      f'`{src(t.test)}`: the re-queue loop runs only when nothing is parked (and then blocks the receive thread in pending.get())', rx)
